@@ -138,6 +138,8 @@ class Findings:
         for sig in stale:
             print('note: listed finding did not reproduce in this run (tier or bound may not reach it): %s' % sig)
         rdir = os.path.join(VERIF, 'replay', self.prop)
+        if os.environ.get('VERIF_NO_EVIDENCE'):
+            rdir = os.path.join(scratch(), 'replay', self.prop)
         if self.viol:
             shutil.rmtree(rdir, ignore_errors=True)
             os.makedirs(rdir, exist_ok=True)
@@ -192,6 +194,8 @@ class Evidence:
         self.cov.setdefault('caps_hit', []).append(what)
 
     def write(self, violations, known=0):
+        if os.environ.get('VERIF_NO_EVIDENCE'):
+            return          # a replay re-executes the check without touching the committed evidence
         os.makedirs(os.path.join(VERIF, 'evidence'), exist_ok=True)
         cov = dict(self.cov)
         if not cov['samples']:
@@ -217,3 +221,22 @@ def conclude(ev, fnd):
         ev.prop, ev.tier, cov['states'], cov['transitions'], cov['traces_validated_against_impl'],
         cov['exhaustive'], n, len(fnd.hit), time.time() - ev.t0))
     return 1 if n else 0
+
+
+def replay_by_rerun(prop, path):
+    """re-executes the check that produced the artefact and says whether the same signature is reported again
+    (as a violation or as a listed known finding); exit 1 + VIOLATION line if it is"""
+    j = json.load(open(path))
+    sig = j['signature']
+    print('artefact:', json.dumps(j, indent=1)[:3000])
+    again = False
+    for tier in ('quick', 'thorough'):
+        r = subprocess.run([os.path.join(VERIF, 'check'), prop, '--tier', tier], capture_output=True, text=True,
+                           env=dict(os.environ, VERIF_NO_EVIDENCE='1'))
+        again = any(sig in l for l in r.stdout.split('\n'))
+        if again or tier == 'thorough':
+            break
+    print('signature %s %s when the check is re-executed (%s tier)' % (sig, 'is reported again' if again else 'is NOT reported', tier))
+    if again:
+        print('VIOLATION property=%s replay=%s' % (prop, path))
+    return 1 if again else 0
